@@ -8,21 +8,20 @@ from mc.gen import scopes_gen as g
 
 def level_plan(tier):
     """list of (nscopes, kind level, slot level, bundle level function, child_first variants)"""
-    if tier == 'quick':
-        return [
-            (1, 'full', 'full', lambda i, n: 'full', (False, True)),
-            (2, 'mid', 'mid', lambda i, n: 'core', (False,)),
-            (1, 'full', 'full', lambda i, n: 'mid', ('decoy',)),
-            (3, 'core', 'core', lambda i, n: 'tiny', ('chain',)),
-        ]
-    return [
+    quick = [
         (1, 'full', 'full', lambda i, n: 'full', (False, True)),
-        (2, 'full', 'full', lambda i, n: 'core', (False, True)),
-        (2, 'mid', 'mid', lambda i, n: 'mid', (False,)),
-        (3, 'core', 'core', lambda i, n: 'core', (False,)),
-        (1, 'full', 'full', lambda i, n: 'full', ('decoy',)),
+        (2, 'mid', 'mid', lambda i, n: 'core', (False,)),
+        (1, 'full', 'full', lambda i, n: 'mid', ('decoy',)),
+        (3, 'core', 'core', lambda i, n: 'tiny', ('chain',)),
+        (2, 'core', 'core', lambda i, n: 'withA', (False,)),
+        (3, 'core', 'core', lambda i, n: 'withA', ('chain',)),
+    ]
+    if tier == 'quick':
+        return quick
+    return quick + [
+        (2, 'full', 'full', lambda i, n: 'core', (False,)),
+        (3, 'core', 'core', lambda i, n: 'core', ('chain',)),
         (2, 'mid', 'mid', lambda i, n: 'core', ('decoy',)),
-        (3, 'core', 'core', lambda i, n: 'core', ('decoy',)),
     ]
 
 
